@@ -67,6 +67,32 @@ func (c *Conv) AppWidth(s string) int {
 	return c.TermWidth(s)
 }
 
+// csiQuery recognises the report requests an application may send.
+func csiQuery(t lexer.Token) trace.Ev {
+	q := func(name string, n int) trace.Ev { return trace.Ev{"ev": "query", "q": name, "n": n} }
+	switch {
+	case t.B == 'n' && t.Priv == "" && t.P(0, 0) == 6:
+		return q("cpr", 0)
+	case t.B == 'n' && t.Priv == "?":
+		return q("dsr", t.P(0, 0))
+	case t.B == 'c' && t.Priv == "" && t.Inter == "":
+		return q("da1", 0)
+	case t.B == 'c' && t.Priv == "=":
+		return q("da3", 0)
+	case t.B == 'p' && t.Priv == "?" && t.Inter == "$":
+		return q("decrqm", t.P(0, 0))
+	case t.B == 'q' && t.Priv == ">":
+		return q("xtversion", 0)
+	case t.B == 'u' && t.Priv == "?":
+		return q("kittykb", 0)
+	case t.B == 'S' && t.Priv == "?":
+		return q("xtsmgraphics", 0)
+	case t.B == 't' && t.Priv == "" && (t.P(0, 0) == 14 || t.P(0, 0) == 18):
+		return q("winsize", t.P(0, 0))
+	}
+	return nil
+}
+
 func asciiOnly(s string) string {
 	b := []byte(s)
 	for i := range b {
@@ -141,6 +167,9 @@ func (c *Conv) conv(t lexer.Token) []trace.Ev {
 		case t.B == 'u' && t.Priv == "<" && t.Inter == "":
 			return []trace.Ev{{"ev": "kpop", "n": t.P(0, 1)}}
 		}
+		if q := csiQuery(t); q != nil {
+			return []trace.Ev{q}
+		}
 		return c.other(fmt.Sprintf("csi:%s%s%s%c", t.Priv, t.Raw, t.Inter, t.B))
 	case lexer.OSC:
 		switch {
@@ -164,10 +193,24 @@ func (c *Conv) conv(t lexer.Token) []trace.Ev {
 		case strings.HasPrefix(t.S, "176;") && t.S != "176;?":
 			return []trace.Ev{{"ev": "appid", "id": c.L.ID("appid:" + t.S[4:])}}
 		}
-		return c.other("osc:" + strings.SplitN(t.S, ";", 2)[0])
+		num := strings.SplitN(t.S, ";", 2)[0]
+		switch {
+		case strings.HasSuffix(t.S, "?") && (num == "4" || num == "10" || num == "11" || num == "176" || num == "52"):
+			return []trace.Ev{{"ev": "query", "q": "osc" + num, "n": 0}}
+		case num == "52":
+			return []trace.Ev{{"ev": "side", "what": "clipboard"}}
+		case num == "9" || num == "777":
+			return []trace.Ev{{"ev": "side", "what": "notify"}}
+		case num == "0" || num == "2":
+			return []trace.Ev{{"ev": "side", "what": "title"}}
+		}
+		return c.other("osc:" + num)
 	case lexer.APC:
 		if strings.HasPrefix(t.S, "G") {
-			return []trace.Ev{{"ev": "nop", "what": "kittygfx"}}
+			if strings.Contains(t.S, "a=q") {
+				return []trace.Ev{{"ev": "query", "q": "kittygfx", "n": 0}}
+			}
+			return []trace.Ev{{"ev": "gfx", "proto": "kitty"}}
 		}
 		return c.other("apc")
 	case lexer.ESC:
@@ -176,6 +219,16 @@ func (c *Conv) conv(t lexer.Token) []trace.Ev {
 		}
 		return c.other(fmt.Sprintf("esc:%s%c", t.Inter, t.B))
 	case lexer.DCS:
+		switch {
+		case strings.HasPrefix(t.S, "+q"):
+			return []trace.Ev{{"ev": "query", "q": "xtgettcap", "n": 0}}
+		case strings.HasPrefix(t.S, "$q"):
+			return []trace.Ev{{"ev": "query", "q": "decrqss", "n": 0}}
+		}
+		body := strings.TrimLeft(t.S, "0123456789;")
+		if strings.HasPrefix(body, "q") {
+			return []trace.Ev{{"ev": "gfx", "proto": "sixel"}}
+		}
 		return c.other("dcs")
 	}
 	return c.other(string(t.K))
